@@ -49,6 +49,8 @@ def run():
     native_src = copy_repo("native-src")
     e1.run_harnesses(rep, "C20", src, specs, jobs=8, timeout=1500 if tier() == "quick" else 3600,
                      replayer=e1.fs_replayer("lock", OPS))
+    from obligations import C05
+    C05.wrappers(rep)
     from obligations import C20_e2
     from common import Inconclusive, Obligation
     try:
